@@ -6,8 +6,8 @@ Import ListNotations. Open Scope nat_scope.
 
 (* Elements are object IDENTITIES (two distinct objects that compare and hash equal are two elements; Python list semantics never
    compare elements, and every write path records element by element).
-   For every history of assignment, self-assignment, += / |= (through `owner.field` or through another reference to the container), append, extend (of a list, a one-shot iterator or the field
-   itself), insert, item assignment (index, or a slice given a list or a one-shot iterator), add, update (any number of
+   For every history of assignment, self-assignment, += / |= (through `owner.field` or through another reference to the container), append, extend (of a list, a one-shot iterator, the field
+   itself or a lazy iterable that reads the field), insert, item assignment (index, or a slice given a list or a one-shot iterator), add, update (any number of
    iterables), from any contents s whose elements are recorded (a set holding no element twice):
    the contents after every operation and the IndexErrors are those of a plain Python list / set, every element (identity) of
    the field is recorded in the graph, and nothing recorded is forgotten *)
@@ -41,11 +41,6 @@ Theorem C16_clone_writes : forall o s, match o with
   end.
 Proof. exact clone_write_recorded. Qed.
 
-(* outside the fragment (known finding C16-o): extend / += given a lazy iterable that reads the field *)
-Theorem C16_refuted_extend_lazy :
-  items (extend_copy_first_new [1; 1] (init KList [])) = [1; 1] /\ extend_lazy_new [1; 1] [] = [1].
-Proof. exact refuted_extend_lazy. Qed.
-
 (* non-vacuity: the three formerly erasing writes, and an assignment with repetitions *)
 Example C16_nonvacuous :
   items (snd (Container.run KList [Assign [2; 1; 0; 1]; AssignSelf; IAug [3]] (init KList []))) = [2; 1; 0; 1; 3] /\
@@ -58,4 +53,3 @@ Print Assumptions C16_constructor.
 Print Assumptions C16_inferences.
 Print Assumptions C16_constructor_copy.
 Print Assumptions C16_clone_writes.
-Print Assumptions C16_refuted_extend_lazy.
